@@ -548,4 +548,20 @@ theorem workLoop_eintr_prefix (k : Nat) (os : List Outcome) :
     rw [List.replicate_succ, List.cons_append, workLoop]
     simp [ih]; omega
 
+theorem filter_replicate_eintr (k : Nat) : (List.replicate k (Outcome.fail EINTR)).filter notEintr = [] := by
+  induction k with
+  | zero => rfl
+  | succ k ih => rw [List.replicate_succ, List.filter_cons, if_neg (by simp)]; exact ih
+
+theorem fsRead_ok (iovmax : Nat) (off : Int) (bufs : List (List α)) (n : Nat) (src : List α) (sys : Sys)
+    (h : readSys off (bufs.take iovmax).length = some sys) :
+    fsRead iovmax off bufs (.ok n) src =
+      ⟨n, 0, [⟨sys, off, bufs.take iovmax, .ok n⟩], scatter (bufs.take iovmax) (src.take n) ++ bufs.drop iovmax⟩ := by
+  simp only [fsRead, h]
+
+theorem fsRead_fail (iovmax : Nat) (off : Int) (bufs : List (List α)) (e : Nat) (src : List α) (sys : Sys)
+    (h : readSys off (bufs.take iovmax).length = some sys) :
+    fsRead iovmax off bufs (.fail e) src = ⟨-1, e, [⟨sys, off, bufs.take iovmax, .fail e⟩], bufs⟩ := by
+  simp only [fsRead, h]
+
 end UvModel.FsBuf
